@@ -3,7 +3,7 @@
 set -u
 D="$1"; ID="$2"; TIER="${3:-quick}"
 git -C /repo diff --quiet || { echo "/repo has uncommitted changes; refusing"; exit 2; }
-git -C /repo apply "$D/patch.diff" || git -C /repo apply --3way "$D/patch.diff" || { echo "patch does not apply"; exit 2; }
+git -C /repo apply "$D/patch.diff" || { echo "patch does not apply"; exit 2; }
 /verif/check "$ID" "$TIER" 2>&1 | grep -v "Aborting shrinking" | tail -12; rc=${PIPESTATUS[0]}
 git -C /repo checkout -- . ; git -C /repo status --short | grep -v '^??' 
 echo "TRY $(basename $D) $ID $TIER => rc=$rc"
